@@ -428,6 +428,9 @@ def main(argv=None):
             canaries=dict(checked=len([r for r in results if not r['error']]), refuted_as_required=len([r for r in results if r.get('canary') == 'sat'])),
             crosscheck=dict(samples=cc['samples'], agreed=cc['agreed'], skipped=cc['skipped'], mismatches=cc['mismatches'][:10]),
             not_decided=pmeta.get('not_decided', []),
+            bounded_stand_ins=sorted(set(f"{h['name']}: {h['bounded']}" for _, h in harnesses if h.get('bounded'))),
+            obligations_from_bounded_stand_ins=sum(1 for o in all_obls if o['harness'] in {h['name'] for _, h in harnesses if h.get('bounded')}),
+            discharged_not_counting_bounded_stand_ins=sum(1 for o in all_obls if o['status'] == 'discharged' and o['harness'] not in {h['name'] for _, h in harnesses if h.get('bounded')}),
             extraction_drops=EXTRACTION_DROPS,
             known_findings=[dict(obligation=f"{o['harness']}/{o['name']}", config=o['config'], what=k.get('what', ''), replay=v) for k, o, v in known_hits],
             undecided_list=(undecided + spurious)[:50], engine_errors=engine_errors[:20],
